@@ -37,12 +37,12 @@ def norm_result(res):
 
 
 def probe_profile(st):
-    return {'minutes': (60, 400), 'p_data_route': 0.3, 'p_warmup': 0.3, 'hp': st.chance(0.4, 'hp'),
+    return {'minutes': (60, 400), 'p_data_route': 0.3, 'p_warmup': 0.3, 'hp': st.chance(0.4, 'hp'), 'hp_partial': True,
             'program': {'p_enter': st.choice([0.3, 0.8], 'pe')}}
 
 
 def earlier_profile(st, probe):
-    pf = {'minutes': (30, 300), 'p_data_route': 0.3, 'p_warmup': 0.4, 'hp': st.chance(0.3, 'hp'),
+    pf = {'minutes': (30, 300), 'p_data_route': 0.3, 'p_warmup': 0.4, 'hp': st.chance(0.3, 'hp'), 'hp_partial': True,
           'program': {'p_enter': st.choice([0.3, 0.8], 'pe')}}
     # the exchange name: same as the probe's (most interesting for cached configuration), or another one
     same_name = st.chance(0.6, 'same_name')
